@@ -197,10 +197,13 @@ func effectsPass(w *World, id string) []*OwnOb {
 		out = append(out, checkMainsStdout(w)...)
 	case "C15":
 		out = append(out, checkMainsStdout(w, "cmd/bkld")...)
+		out = append(out, checkOutputFileOpen(w, lib, "cmd/bkld")...)
 	case "C16":
 		out = append(out, checkMainsStdout(w, "cmd/bkli", "cmd/bkld")...)
+		out = append(out, checkOutputFileOpen(w, lib, "cmd/bkli", "cmd/bkld")...)
 	case "C17":
 		out = append(out, checkMainsStdout(w, "cmd/bklr")...)
+		out = append(out, checkOutputFileOpen(w, lib, "cmd/bklr")...)
 	case "C03":
 		out = append(out, checkMainsStdout(w, "cmd/bkl")...)
 	}
@@ -772,7 +775,18 @@ func checkFormatTable(w *World) []*OwnOb {
 // checkOutputFileOpen: C05 — a file that bkl writes is replaced, never patched: every os.OpenFile in the library that
 // can write passes constant flags containing O_TRUNC and O_CREATE (os.Create is the same thing), and OutputToFile has
 // such a site and hands that handle, and nothing else, the encoded stream (one OutputToWriter call on it, no other write).
-func checkOutputFileOpen(w *World, lib []*FuncInfo) []*OwnOb {
+func checkOutputFileOpen(w *World, lib []*FuncInfo, dirs ...string) []*OwnOb {
+	if len(dirs) == 0 {
+		dirs = []string{"."}
+	}
+	inDirs := func(d string) bool {
+		for _, x := range dirs {
+			if x == d {
+				return true
+			}
+		}
+		return false
+	}
 	var out []*OwnOb
 	constInt := func(info *types.Info, x ast.Expr) (int64, bool) {
 		tv, ok := info.Types[x]
@@ -795,7 +809,7 @@ func checkOutputFileOpen(w *World, lib []*FuncInfo) []*OwnOb {
 	}
 	sites := 0
 	for _, fi := range lib {
-		if fi.PkgDir != "." {
+		if !inDirs(fi.PkgDir) {
 			continue
 		}
 		info := fi.Pkg.TypesInfo
@@ -836,6 +850,9 @@ func checkOutputFileOpen(w *World, lib []*FuncInfo) []*OwnOb {
 			}
 			return true
 		})
+	}
+	if !inDirs(".") {
+		return out
 	}
 	fi := findFunc(w, ".:Parser.OutputToFile")
 	pos := ""
